@@ -37,10 +37,10 @@ Definition init_pstate (c : pcase) : option pstate :=
   match recover_writer (pc_table c) (pc_n c) (crash_image (pc_disk c) []) with
   | RecFresh _ =>
       Some {| ps_t := init_state; ps_epoch_n := [(0, O)]; ps_segdocs := pc_segdocs c; ps_disk := pc_disk c;
-              ps_pol := pol_init (pc_n c); ps_base := []; ps_safe := []; ps_acked := []; ps_faulted := false |}
+              ps_pol := pol_init (pc_n c); ps_base := []; ps_safe := []; ps_acked := []; ps_faulted := false; ps_grabbed := None |}
   | RecOk r =>
       Some {| ps_t := init_state; ps_epoch_n := []; ps_segdocs := pc_segdocs c; ps_disk := pc_disk c;
-              ps_pol := r_pol r; ps_base := []; ps_safe := []; ps_acked := []; ps_faulted := false |}
+              ps_pol := r_pol r; ps_base := []; ps_safe := []; ps_acked := []; ps_faulted := false; ps_grabbed := None |}
   | _ => None
   end.
 
